@@ -7,7 +7,7 @@ from pyvc.verify import *
 from pyvc.interp import Interp
 import pyvc.solve as S
 q=sys.argv[1]; idx=int(sys.argv[2]); tmo=int(sys.argv[3]) if len(sys.argv)>3 else 3000
-I=Interp('/repo','/verif')
+import os; I=Interp(os.environ.get('REPO','/repo'),'/verif')
 rep=FuncReport(q)
 t=time.time()
 cov=generate(I,q,rep,{},{idx})
